@@ -1,7 +1,7 @@
 (* Props/C16.v — property C16: stopping early or failing mid-stream yields a prefix of the full
    results.  Statements only. *)
 From RG Require Import Base.Bytes Model.Lines Model.SearcherCore Model.Glue
-  Model.ReadByLine Proofs.PrefixLaw Proofs.PrefixCore Proofs.MLPrefix Proofs.RBLPrefix Proofs.RBLFail.
+  Model.ReadByLine Proofs.PrefixLaw Proofs.PrefixCore Proofs.MLPrefix Proofs.RBLPrefix Proofs.RBLFail Proofs.SinkDriven.
 
 (* 1. SliceByLine::run (fast and slow line paths, any binary-detection mode, any matcher, any
       configuration, any input): let [evs] be the sink calls of the run with a sink that always
@@ -88,6 +88,60 @@ Theorem read_failure_is_prefix :
       match events_of runG with Some evsG => exists rest, evsG = evs ++ rest | None => True end.
 Proof. intros x y h1 h2 h2' Hx cfg M pol cap stream. exact (read_failure_is_prefix_proof x y h2 h2' Hx cfg M pol cap stream h1). Qed.
 Print Assumptions read_failure_is_prefix.
+
+(* 6. STATEFUL sinks.  The model is driven by a reply function indexed by the call number; a real
+      Sink is a state machine (step : state -> call -> state * reply) that answers according to what
+      it has been shown.  For every such sink (whose reply to finish does not depend on the numbers
+      reported there) there is a reply function that agrees with the sink on exactly the calls the
+      run delivers (consistent), and the run under it is (SinkRunSpec): the whole uninterrupted run
+      if the sink accepts every call before finish; otherwise the calls up to and including the
+      first one the sink refuses, followed by exactly one finish after Stop / by nothing and the
+      error after Fail.  All three strategies. *)
+Theorem stateful_sink_slice :
+  forall (cfg : config) (M : matcher) (St : Type) (step : St -> event -> St * reply) (s0 : St),
+    (forall st n b n' b', snd (step st (EFinish n b)) = snd (step st (EFinish n' b'))) ->
+    forall (s : bytes) (evs : list event),
+      slice_by_line_run cfg M (fun _ => Continue) s = RunOk evs ->
+      SinkRunSpec St step s0 (fun r => slice_by_line_run cfg M r s) evs.
+Proof. exact slice_sink_driven. Qed.
+Print Assumptions stateful_sink_slice.
+
+Theorem stateful_sink_multi_line :
+  forall (cfg : config) (M : matcher) (St : Type) (step : St -> event -> St * reply) (s0 : St),
+    (forall st n b n' b', snd (step st (EFinish n b)) = snd (step st (EFinish n' b'))) ->
+    forall (s : bytes) (evs : list event),
+      multi_line_run cfg M (fun _ => Continue) s = RunOk evs ->
+      SinkRunSpec St step s0 (fun r => multi_line_run cfg M r s) evs.
+Proof. exact multi_line_sink_driven. Qed.
+Print Assumptions stateful_sink_multi_line.
+
+Theorem stateful_sink_reader :
+  forall (cfg : config) (M : matcher) (St : Type) (step : St -> event -> St * reply) (s0 : St),
+    (forall st n b n' b', snd (step st (EFinish n b)) = snd (step st (EFinish n' b'))) ->
+    forall (pol : alloc_policy) (cap : nat) (stream : bytes) (hist : list read_step) (evs : list event),
+      read_by_line_run cfg M (fun _ => Continue) pol cap stream hist = RunOk evs ->
+      SinkRunSpec St step s0 (fun r => read_by_line_run cfg M r pol cap stream hist) evs.
+Proof. exact reader_sink_driven. Qed.
+Print Assumptions stateful_sink_reader.
+
+(* a sink that stops after its second match (a per-file limit of 2): *)
+Example limit_sink_example :
+  let cfg := {| c_lt := LTByte 10; c_invert := false; c_after := 0; c_before := 0; c_passthru := false;
+                c_line_number := true; c_stop_on_nonmatch := false; c_binary := BNone; c_multi_line := false |} in
+  let M := {| m_is_match := fun l => match l with 97%N :: _ => true | _ => false end;
+              m_find_candidate := fun _ => None; m_line_term := None; m_nonmatching := fun _ => false;
+              m_find_at := fun _ _ => None |} in
+  let step := fun (seen : nat) (e : event) =>
+                match e with
+                | EMatched _ _ _ => (S seen, if Nat.leb 2 (S seen) then Stop else Continue)
+                | _ => (seen, Continue)
+                end in
+  let evs := [EBegin; EMatched 0 (Some 1) [97; 10]%N; EMatched 2 (Some 2) [97; 10]%N; EMatched 4 (Some 3) [97; 10]%N; EFinish 6 None] in
+  slice_by_line_run cfg M (fun _ => Continue) [97; 10; 97; 10; 97; 10]%N = RunOk evs /\
+  first_dev (r0 nat step 0 evs) (length evs - 1) = Some 2 /\
+  slice_by_line_run cfg M (r0 nat step 0 evs) [97; 10; 97; 10; 97; 10]%N
+    = RunOk [EBegin; EMatched 0 (Some 1) [97; 10]%N; EMatched 2 (Some 2) [97; 10]%N; EFinish 4 None].
+Proof. vm_compute. repeat split; reflexivity. Qed.
 
 (* non-vacuity: a concrete run with a match, context and a stop at the second call *)
 Example stop_example :
